@@ -23,6 +23,15 @@ CHECKS = {
          "font must map every selector glyph to the denoted output glyph, and the pass FSM must be certified (C02 theorem) against exactly those memberships."),
    note=TB + "Cls.lookup abstracts the engine's binary search; class references denote the final value of the referenced class (late binding).",
    design="4/C04"),
+ "C07": dict(
+   technique="Lean 4 spec (tree of optional groups) and model (the compiler's range algorithm) compared per rule, theorems on reference renumbering; alternatives certified against the real font through the C02/C06/C04 machinery",
+   text=("Proof (partial): Opt.newIndex_count / newIndex_none (in an alternative, a reference to a kept item becomes 1 + the number of kept items before it; an omitted item has no new index), "
+         "spec_single_optional. The full statement model = spec for all trees is NOT yet proved; it is checked for every generated rule (up to repeated alternatives, which can never fire). "
+         "Tie: the driver replaces every rule with optional items by its alternatives and requires of the real font: rule count and order, the FSM of every alternative certified for all glyph "
+         "strings (C02 theorem), sort keys / pre-contexts / start states (C06), substitution classes and @n / association offsets still denoting the same original item (C04 + offset model); "
+         "programs in which some alternative refers to an omitted item must be rejected with error 1103."),
+   note=TB + "Trees up to depth 3 / 8 items, optional groups in the context part only; constraints and attribute expressions referring to slots are covered by C01.",
+   design="4/C07"),
  "C08": dict(
    technique="Lean checkers for sfnt container/preservation/name records run on real output and on recompilation chains + Lean theorems on the checksum word-sum (additivity over aligned parts, zero padding)",
    text=("Proof: wordSum_append / wordSum_pad / wordSum_zeros — the sfnt checksum of a file is the sum (mod 2^32) of the checksums of its 4-byte-aligned zero-padded parts, so the per-table "
